@@ -81,6 +81,12 @@ func (p *prop) Generate(rng *core.Rand, tier string, emit func(string)) {
 	for i := 0; i < nSite/6; i++ {
 		emit(genLnpCase(rgl))
 	}
+	for i := 0; i < nSort/16; i++ {
+		emit(genNormCase(rgl))
+	}
+	for i := 0; i < nSite/4; i++ {
+		emit(genHpCase(rgl))
+	}
 	// ---- `servers` option blocks → servers (which block applies, final names) vs model
 	for i := 0; i < nSite/3; i++ {
 		emit(genSoptsCase(rgl))
